@@ -11,7 +11,7 @@ def jPair (e : Nat × Conn) : Json := .arr #[.num (JsonNumber.fromNat e.1), jCon
 
 def jOut (o : Out) : Json := Json.mkObj [
   ("returned", jOptConn o.returned), ("isNew", .bool o.isNew), ("stmts", .arr (o.stmts.map jConn).toArray),
-  ("closed", .arr (o.closed.map jConn).toArray), ("attrError", .bool o.attrError), ("assertError", .bool o.assertError),
+  ("closed", .arr (o.closed.map jConn).toArray), ("attrError", .bool o.attrError), ("assertError", .bool o.assertError), ("failed", .bool o.failed),
   ("staleDisconnect", .bool o.staleDisconnect)]
 
 def jProc (q : Proc) : Json := Json.mkObj [
@@ -28,6 +28,8 @@ def parseKind : String → Except String Kind
 
 def parseAct : String → Except String Act
   | "connect" => pure .connect
+  | "connectFail" => pure .connectFail
+  | "connectInitFail" => pure .connectInitFail
   | "stmt" => pure .stmt
   | "release" => pure .release
   | "drop" => pure .drop
